@@ -577,7 +577,7 @@ fn expansion_sweep(terms: &[Term], checks: u32, tier: Tier, seq_only: bool) -> V
 fn all_units() -> Vec<(Src, usize)> {
     let mut v = Vec::new();
     for (s, _) in hcore::case::ALL_SRC.iter() {
-        if matches!(*s, Src::PRangeMax | Src::PRangeBig) {
+        if matches!(*s, Src::PRangeMax | Src::PRangeBig | Src::PFltCopied | Src::PFltCloned) {
             continue; // practically endless: only in the explicit C10 items
         }
         for cid in 0..chains::N_CHAINS {
@@ -600,7 +600,7 @@ fn term_ok(src: Src, cid: usize, t: Term) -> bool {
     );
     // positions reported for a source that was partly consumed beforehand are not defined by the property
     let pre = matches!(src, Src::PConVecPre | Src::PConSlicePre | Src::PConRangePre | Src::PConIterPre | Src::PConIterParPre);
-    let adaptor = matches!(src, Src::PClonedAd | Src::PCopiedAd | Src::PClonedIt);
+    let adaptor = matches!(src, Src::PClonedAd | Src::PCopiedAd | Src::PClonedIt | Src::PFltCopied | Src::PFltCloned);
     if t.needs_tok() {
         return tok_items && chains::TOK_SUBSET.contains(&cid);
     }
@@ -1290,6 +1290,26 @@ pub fn items(prop: &str, tier: Tier) -> Vec<Item> {
                     }
                 }
             }
+            // 10 .. 16 workers: three and four lag periods
+            for (ch, t) in &progs[..4] {
+                for n in [10usize, 12, 16] {
+                    for len in [64usize, 100] {
+                        for (cs, src, known) in [(CsSet::N(1), Src::SVec, true), (CsSet::Min(1), Src::SVec, true), (CsSet::N(1), Src::SIter, false)] {
+                            if !th && (len == 100 && n != 12) {
+                                continue;
+                            }
+                            let mut c = par(case(src, len, ch, *t), n, cs);
+                            c.known = known;
+                            c.pmask = 1 << 60;
+                            out.push(item(c.clone(), Plan::base_rr(), ck));
+                            out.push(item(c.clone(), Plan::base_rr().with_slow0(2), ck));
+                            if th {
+                                out.push(item(c, Plan::db(1), ck));
+                            }
+                        }
+                    }
+                }
+            }
             // very long inputs: spawning decisions that look at the input length
             for (ch, t) in &progs[..4] {
                 for n in [2usize, 3] {
@@ -1467,6 +1487,21 @@ pub fn items(prop: &str, tier: Tier) -> Vec<Item> {
                     }
                 }
             }
+            // more than 2^22 elements with drop glue behind the match (known length)
+            for (ch, t) in [("", Term::Find), ("M", Term::Any), ("MF", Term::First), ("F", Term::Find)] {
+                if !th && ch == "F" {
+                    continue;
+                }
+                for (w, cs) in [(2usize, CsSet::N(64)), (3, CsSet::Keep)] {
+                    let mut c = par(case(Src::SVec, 0, ch, t), w, cs);
+                    c.input = (0..4_400_000usize).map(|i| i as u8).collect();
+                    c.pred_pos = [1000, u32::MAX];
+                    if let Some(i) = filters_in(ch).first() {
+                        c.fmask[*i] = u64::MAX;
+                    }
+                    out.push(item(c, Plan::base_rr().with_horizon(400_000), ck));
+                }
+            }
             // a range whose end is usize::MAX used as an unbounded source
             for ch in ["", "M", "F"] {
                 for t in [Term::Find, Term::Any, Term::First] {
@@ -1546,6 +1581,17 @@ pub fn items(prop: &str, tier: Tier) -> Vec<Item> {
             out.extend(engine_bigitem(&[Term::CollectVec, Term::Reduce, Term::Find, Term::Count, Term::CollectX], ck, tier, &["", "M", "F", "X", "O"]));
             out.extend(engine_clock(&[Term::CollectVec, Term::Count, Term::Reduce], ck, tier, &["M", "MF", "XF"]));
             // many workers: workers are spawned after the first lag period
+            // chunk sizes beyond 2^32 on a range of 2^40 elements (never materialised): `find` with a predicate that accepts
+            // everything - each worker evaluates the first element of the chunk it was handed
+            for cexp in [(1usize << 32) + 1024, (1 << 33) + 1, 1 << 32] {
+                for w in [2usize, 3] {
+                    let mut c = par(case(Src::PRangeBig, 0, "", Term::Find), w, CsSet::Exact(cexp));
+                    c.spare = 40;
+                    c.pmask = u64::MAX;
+                    out.push(item(c.clone(), Plan::base_rr(), CK_EXACT));
+                    out.push(item(c, Plan::db(1), CK_EXACT));
+                }
+            }
             let progs: [(&str, Term); 5] = [("M", Term::CollectVec), ("MF", Term::CollectVec), ("M", Term::Reduce), ("MF", Term::Count), ("XF", Term::CollectX)];
             for (ch, t) in progs {
                 for w in [6usize, 7] {
@@ -1930,6 +1976,27 @@ pub fn items(prop: &str, tier: Tier) -> Vec<Item> {
                     }
                 }
             }
+            // five and six workers: the spawner goes through a lag period while a worker unwinds
+            for (src, known) in [(Src::SVec, true), (Src::SIter, false)] {
+                for (ch, t) in &progs {
+                    for w in [5usize, 6] {
+                        for (cs, fpos) in [(CsSet::N(1), 1usize), (CsSet::N(1), 9), (CsSet::N(2), 4), (CsSet::Min(1), 2)] {
+                            if !th && w == 6 && fpos != 1 {
+                                continue;
+                            }
+                            let mut c = par(case(src, 24, ch, *t), w, cs);
+                            c.known = known;
+                            c.prefix = if t.is_collect_into() { 1 } else { 0 };
+                            c.pmask = 0;
+                            c.fault = Some((0, fpos as u64 + 1));
+                            out.push(item(c.clone(), Plan::base_rr(), ck));
+                            out.push(item(c.clone(), Plan::base_rr().with_slow0(2), ck));
+                            out.push(item(c.clone(), Plan::base_rr().with_slow0(4), ck));
+                            out.push(item(c, Plan::db(1), ck));
+                        }
+                    }
+                }
+            }
             // unbounded sources: the call must panic although the other workers could pull for ever
             for src in [Src::SIter, Src::PIter] {
                 for ch in ["", "M", "MF", "OF", "XF"] {
@@ -2115,6 +2182,25 @@ pub fn items(prop: &str, tier: Tier) -> Vec<Item> {
                         c.known = true;
                         c.nt[0] = NtSet::Max(2);
                         out.push(item(c, Plan::base_np(), ck));
+                    }
+                }
+            }
+            // `copied()` / `cloned()` after another transformation (a logged filter inside the source constructor)
+            for src in [Src::PFltCopied, Src::PFltCloned] {
+                for cid in chains::SMALL {
+                    for t in [Term::Build, Term::Count, Term::CollectVec] {
+                        // (these sources start in builder state FilterMap, whose flat_map is one of the eight eager sites)
+                        if !src.supports(cid) || !term_ok(src, cid, t) || chains::CHAINS[cid].contains('X') {
+                            continue;
+                        }
+                        for (nt, cs) in [(NtSet::Keep, CsSet::Keep), (NtSet::Max(2), CsSet::N(1)), (NtSet::N(1), CsSet::Keep)] {
+                            for n in [0usize, 3] {
+                                let mut c = case(src, n, chains::CHAINS[cid], t);
+                                c.nt[0] = nt;
+                                c.cs[0] = cs;
+                                out.push(item(c, Plan::base_np(), ck));
+                            }
+                        }
                     }
                 }
             }
